@@ -19,7 +19,8 @@ def correspondence(ctx):
         for prof in ('um', 'up', 'op', 'nick'):
             cases.append(f'prof|{prof}|prepare|f|b|{h}|')
             cases.append(f'prof|{prof}|enforce|s|o|{h}|')
-        for prof, rule in (('um', 'width'), ('um', 'case'), ('um', 'norm'), ('um', 'dir'), ('op', 'addmap'), ('op', 'norm'), ('nick', 'addmap'), ('nick', 'case'), ('nick', 'norm'), ('op', 'case'), ('nick', 'dir')):
+        # every rule of every profile, including the ones a profile does not define (default method: typed ProfileRuleNotApplicable)
+        for prof, rule in [(p_, r_) for p_ in ('um', 'up', 'op', 'nick') for r_ in ('width', 'addmap', 'case', 'norm', 'dir')]:
             cases.append(f'rules|{prof}|{rule}|{h}')
         cases.append(f'allows.id|{h}')
         cases.append(f'allows.ff|{h}')
